@@ -332,9 +332,21 @@ func WaitBounded(wg *sync.WaitGroup, d time.Duration, marker string, progress fu
 // CallBounded runs f in a goroutine and waits at most d for it; results as for WaitBounded.
 func CallBounded(d time.Duration, f func()) (done, hang bool, detail string) {
 	ch := make(chan struct{})
-	go func() { defer close(ch); boundedCall(f) }()
+	var pv string
+	go func() {
+		defer close(ch)
+		defer func() {
+			if r := recover(); r != nil {
+				pv = fmt.Sprintf("%v\n%s", r, debug.Stack())
+			}
+		}()
+		boundedCall(f)
+	}()
 	select {
 	case <-ch:
+		if pv != "" {
+			panic(pv) // re-raised in the caller's goroutine, where the property runner turns it into a failure
+		}
 		return true, false, ""
 	case <-time.After(d):
 	}
